@@ -6,8 +6,10 @@ import (
 	"fmt"
 	"io"
 	"log"
+	"runtime"
 	"strconv"
 	"strings"
+	"time"
 	"unicode/utf8"
 
 	"github.com/ajitpratap0/GoSQLX/pkg/lsp"
@@ -25,6 +27,8 @@ type lspFrame struct {
 }
 
 type lspSession struct {
+	Deadlock string // stack of the server goroutine parked on a lock it can never get
+	Stalled  bool   // the session did not return and is not parked on a lock: inconclusive
 	Out      []byte
 	Frames   []lspFrame
 	FrameErr string // non-empty if the output is not a sequence of exactly framed JSON messages
@@ -65,7 +69,9 @@ func lspRun(input []byte) *lspSession {
 	var out bytes.Buffer
 	srv := lsp.NewServer(bytes.NewReader(input), &out, log.New(io.Discard, "", 0))
 	s.Server = srv
-	func() {
+	done := make(chan struct{})
+	go func() {
+		defer close(done)
 		defer func() {
 			if r := recover(); r != nil {
 				s.Panic = fmt.Sprint(r)
@@ -74,9 +80,60 @@ func lspRun(input []byte) *lspSession {
 		s.RunErr = srv.Run()
 		s.Returned = true
 	}()
+	// The input is in memory, so the server never waits for a peer: a session takes milliseconds.  If it has not
+	// returned after a long while, what decides is the state of its goroutine, not the clock: parked on a lock
+	// (twice, in the same place) with nobody left who could release it is a deadlock; anything else is inconclusive.
+	select {
+	case <-done:
+	case <-time.After(20 * time.Second):
+		st1 := lspServerGoroutine()
+		select {
+		case <-done:
+		case <-time.After(2 * time.Second):
+			st2 := lspServerGoroutine()
+			if st1 != "" && st1 == st2 && lspParkedOnLock(st1) {
+				s.Deadlock = st1
+			} else {
+				s.Stalled = true
+			}
+			// the goroutine is left behind; its output buffer must not be read while it may still write
+			return &lspSession{Server: srv, Deadlock: s.Deadlock, Stalled: s.Stalled}
+		}
+	}
 	s.Out = out.Bytes()
 	s.Frames, s.FrameErr = lspParseFrames(s.Out)
 	return s
+}
+
+// lspServerGoroutine returns the stack of the goroutine that is inside Server.Run ("" if none).
+func lspServerGoroutine() string {
+	buf := make([]byte, 1<<20)
+	buf = buf[:runtime.Stack(buf, true)]
+	for _, g := range strings.Split(string(buf), "\n\n") {
+		if strings.Contains(g, "lsp.(*Server).Run") {
+			// drop the goroutine number and the waiting time, which differ between two samples
+			lines := strings.Split(g, "\n")
+			if len(lines) > 0 {
+				if i := strings.Index(lines[0], "["); i >= 0 {
+					st := lines[0][i:]
+					if j := strings.Index(st, ","); j >= 0 {
+						st = st[:j] + "]"
+					}
+					lines[0] = st
+				}
+			}
+			return strings.Join(lines, "\n")
+		}
+	}
+	return ""
+}
+
+func lspParkedOnLock(stack string) bool {
+	first := stack
+	if i := strings.IndexByte(stack, '\n'); i >= 0 {
+		first = stack[:i]
+	}
+	return strings.Contains(first, "semacquire") || strings.Contains(first, "sync.Mutex.Lock") || strings.Contains(first, "sync.RWMutex")
 }
 
 func lspParseFrames(out []byte) ([]lspFrame, string) {
